@@ -277,7 +277,7 @@ def _field_unit(rng):
                 qids = [t for t in toks if t.kind == "qid"]
                 want = name.split(".")[-1]
                 if d == "athena":
-                    want = clean_athena_identifier(want)
+                    want = sqllex.athena_identifier_ref(want)
                 names = [q.value for q in qids if q.value != "al"]
                 if sqllex.bad_tokens(toks) or names != [want] or len(toks) != (3 if not al else 5):
                     acc.violation("field:%s" % d, {"layer": "field", "codepoint": cp, "dialect": d, "alias": al, "sql": sql, "expected_qid": want})
@@ -388,7 +388,9 @@ def payloads(k):
     # combining mark, RTL override, astral character, zero-width joiner: alone and next to a quote
     uni = ["\u0301", "\u202e", "\U0001F600", "\u200d", "e\u0301", "\ufeff"]
     uni = uni + [u + "'" for u in uni] + ["'" + u for u in uni] + [u + "%" for u in uni]
-    return out + CLASSICS + LOOKALIKE + TEMPLATES + uni + conf + ["zz" + c + " OR 1=1 --" for c in conf[::3]] + punctuation_payloads()
+    # long runs of one metacharacter (a replacement that stops after n occurrences), alone and in front of an attack
+    runs = [c * n + suf for c in ("'", "\\", "%", "_", '"') for n in (8, 15, 16, 17, 31, 32, 33, 64, 65, 100, 255, 256, 257) for suf in ("", "' OR 1=1 --")]
+    return out + runs + CLASSICS + LOOKALIKE + TEMPLATES + uni + conf + ["zz" + c + " OR 1=1 --" for c in conf[::3]] + punctuation_payloads()
 
 
 def run(ctx):
